@@ -22,13 +22,13 @@ namespace Badger
     ghost history (one entry per successful `newCommitTs`, in the order the calls took `o.Lock`)
     is strictly sorted by timestamp; every timestamp is above `MaxVersion()` at `Open` and below
     `nextTxnTs`. -/
-theorem C03_ts_unique_increasing {d : Bool} {n : Nat} {s : Sys} (h : Reach false d n s) :
+theorem C03_ts_unique_increasing {d : Bool} {n : Nat} {s : Sys} (h : OReach false d n s) :
     s.hist.Pairwise (fun a b => a.ts < b.ts) ∧ (∀ e ∈ s.hist, n < e.ts ∧ e.ts < s.o.nextTxnTs) :=
   ⟨h.inv.histSorted, h.inv.histLt⟩
 
 /-- … in particular the timestamp a successful `Commit` returns is `nextTxnTs`, larger than every
     timestamp handed out before. -/
-theorem C03_commit_ts_fresh {d : Bool} {n : Nat} {s : Sys} (h : Reach false d n s) (tid : Nat) (ts : Nat)
+theorem C03_commit_ts_fresh {d : Bool} {n : Nat} {s : Sys} (h : OReach false d n s) (tid : Nat) (ts : Nat)
     (x : TxnSt) (hx : s.txns[tid]? = some x) (hph : x.phase = .active)
     (hok : s.commitResult tid = some (.ok ts)) : ∀ e ∈ s.hist, e.ts < ts := by
   have hI := h.inv
@@ -48,7 +48,7 @@ theorem C03_commit_ts_fresh {d : Bool} {n : Nat} {s : Sys} (h : Reach false d n 
     timestamp handed to a transaction that starts now is `≥ ts`; and (`C34_readTs_sees_applied`)
     that transaction only leaves `readTs()` once every commit `≤` its read timestamp — `ts` included
     — has been reported applied. Both facts persist: later states are reachable states. -/
-theorem C03_visible_after_ack {d : Bool} {n : Nat} {s : Sys} (h : Reach false d n s) (ts : Nat)
+theorem C03_visible_after_ack {d : Bool} {n : Nat} {s : Sys} (h : OReach false d n s) (ts : Nat)
     (hack : ts ∈ s.doneCommits) : ts ≤ s.o.readTsBegin.2 := by
   have hI := h.inv
   obtain ⟨e, he, rfl⟩ := List.mem_map.mp (hI.doneSub ts hack)
@@ -58,7 +58,7 @@ theorem C03_visible_after_ack {d : Bool} {n : Nat} {s : Sys} (h : Reach false d 
 
 /-- The read timestamp of every transaction is below `nextTxnTs`, and a transaction that starts
     later never gets a smaller read timestamp (`nextTxnTs` only grows). -/
-theorem C03_readTs_lt_next {d : Bool} {n : Nat} {s : Sys} (h : Reach false d n s) :
+theorem C03_readTs_lt_next {d : Bool} {n : Nat} {s : Sys} (h : OReach false d n s) :
     ∀ x ∈ s.txns, x.t.readTs < s.o.nextTxnTs := h.inv.readTsLt
 
 /-- A commit rejected by conflict detection leaves no trace in the oracle (= `C02_conflict_no_trace`). -/
@@ -67,7 +67,7 @@ theorem C03_rejected_no_trace (o : Oracle) (t : Txn) (hcf : (o.newCommitTs t).2.
 
 /-- The assertions `AssertTrue(maxReadTs >= lastCleanupTs)`, `AssertTrue(ts >= lastCleanupTs)` and
     the watermark assertion never fire in normal mode: no reachable state is crashed. -/
-theorem C03_oracle_never_asserts {d : Bool} {n : Nat} {s : Sys} (h : Reach false d n s) : s.crashed = false :=
+theorem C03_oracle_never_asserts {d : Bool} {n : Nat} {s : Sys} (h : OReach false d n s) : s.crashed = false :=
   h.inv.live
 
 -- non-vacuity: three commits, timestamps 1,2,3; a reader started after doneCommit 1 reads at >= 1
